@@ -184,7 +184,8 @@ class Lowered:
 
 
 class Lowerer:
-    def __init__(self, body, nl="\n", plant=None, site=None, seed=0):
+    def __init__(self, body, nl="\n", plant=None, site=None, seed=0, prefix=0):
+        self.prefix = prefix  # number of comment lines put at the top of every file ("edited" version)
         self.body = to_tuple(body)
         self.nl = nl
         self.plant = plant
@@ -204,6 +205,8 @@ class Lowerer:
         f = FileB(uri, self.nl)
         self.files[uri] = f
         self.order.append(uri)
+        for i in range(self.prefix):
+            f.w("## edit %d" % i + self.nl)
         if self.plant == "r_modtop":
             self.mh_block(f)
         return f
@@ -507,8 +510,8 @@ class Lowerer:
         self.plant_info = info
 
 
-def lower(body, nl="\n", plant=None, site=None, seed=0):
-    return Lowerer(body, nl, plant, site, seed).lower()
+def lower(body, nl="\n", plant=None, site=None, seed=0, prefix=0):
+    return Lowerer(body, nl, plant, site, seed, prefix).lower()
 
 
 # --------------------------------------------------------------------------
